@@ -76,7 +76,8 @@ rm_file = op('rm_file', b=I, j=I)
 rm_dir = op('rm_dir', d=I, ns=st.sampled_from([7, 7, 7, 7, 1, 2, 4, 3]))
 add_link = op('add_link', b=I, j=I, to=I, d=I, sz=SZ, rsz=RSZ, usz=st.integers(0, 4), lead=I, salt=I, reuse=st.one_of(st.just(0), st.integers(1, 1 << 16)))
 rm_link = op('rm_link', b=I, j=I)
-add_sym = op('add_sym', d=I, form=st.integers(0, 3), jol=st.booleans(), tgt=I, sz=SZ, rsz=RSZ, usz=st.integers(0, 4), lead=I, salt=I, reuse=REUSE, magic=MAGIC)
+add_sym = op('add_sym', d=I, form=st.integers(0, 3), jol=st.booleans(), tgt=I, sz=SZ, rsz=RSZ, usz=st.integers(0, 4), lead=I, salt=I, reuse=REUSE, magic=MAGIC,
+             tu=st.one_of(st.just(0), st.just(0), st.just(0), st.just(0), st.integers(1, 40)))
 rm_sym = op('rm_sym', i=I)
 hide = op('hide', i=I, via=st.integers(0, 1), on=st.sampled_from([1, 1, 0]))
 dup_pvd = op('dup_pvd')
